@@ -113,6 +113,22 @@ impl Genuine {
         }
     }
 
+    /// Sequence mutation relative to the endpoint's current value `base` of the field's sequence space.
+    pub fn concretise_seq(&self, leaves: &[Leaf], idx: usize, mutn: &str, base: u64, noise: Option<&mut Rng>) -> Option<Vec<u8>> {
+        match self {
+            Genuine::Bin(b, lo) => {
+                let mut msg = b.clone();
+                if let Some(rng) = noise {
+                    grammar::noise(leaves, lo, &mut msg, rng);
+                }
+                let v = grammar::seq_value(&leaves[idx], lo.locs[idx], &msg, mutn, Some(base))?;
+                grammar::set_val(&mut msg, &leaves[idx], lo.locs[idx], v);
+                Some(msg)
+            }
+            Genuine::Text(_) => None,
+        }
+    }
+
     pub fn has_noise(&self) -> bool {
         matches!(self, Genuine::Bin(..))
     }
